@@ -2,7 +2,7 @@
    C06: the frame condition built into the field-edit specification. *)
 From Coq Require Import String List Arith Bool ZArith Lia.
 Import ListNotations.
-From NP Require Import Base Values Arrow Abs Kernels Logical ExtArray Codec Steps Proofs_Views Proofs_Codec.
+From NP Require Import Base Values Arrow Abs Kernels Logical ExtArray Codec Steps Proofs_Views Proofs_Codec Proofs_Norm.
 
 (* ---------- C01 ---------- *)
 (* what pyarrow itself guarantees of any struct<list...> array (schema, offsets monotone and within the
@@ -86,28 +86,95 @@ Proof.
   cbn [map fst snd]. rewrite IH. reflexivity.
 Qed.
 
+(* what the constructor does first: a column of no chunk gets one empty chunk *)
+Definition completed (p : chunked) : chunked :=
+  match chunks p with
+  | [] => {| ctype := ctype p;
+             chunks := [ {| svalid := [];
+                            sfields := map (fun nt => {| fname := fst nt; fty := snd nt;
+                                                         farr := {| offs := [0]; lvalid := []; child := [] |} |})
+                                           (ctype p) |} ] |}
+  | _ => p
+  end.
+
+Lemma m_init_true_eq p :
+  m_init p true = if m_validate (completed p) then Ok (m_drop_hidden (completed p)) else Err.
+Proof. reflexivity. Qed.
+
+Lemma completed_chunks p : chunks (completed p) <> [].
+Proof. unfold completed. destruct (chunks p) eqn:E; cbn [chunks]; [discriminate|rewrite E; discriminate]. Qed.
+
+Lemma completed_arrow_ok p : arrow_ok_b p = true -> arrow_ok_b (completed p) = true.
+Proof.
+  intros Hok. unfold completed. destruct (chunks p) as [|c0 cs] eqn:Ec; [|exact Hok].
+  unfold arrow_ok_b in *. apply andb_true_iff in Hok as [Hne _]. cbn [ctype chunks forallb]. rewrite Hne. cbn [andb].
+  rewrite andb_true_r.
+  unfold wf_chunk_b, sc_schema, lists_valid_b. cbn [sfields svalid].
+  rewrite empty_fields_schema, schema_eqb_refl.
+  rewrite !forallb_map. cbn [farr lvalid andb].
+  apply andb_true_iff. split; apply forallb_forall; intros; reflexivity.
+Qed.
+
+Lemma nth_map_const {A B} (d : B) : forall (l : list A) k, nth k (map (fun _ => d) l) d = d.
+Proof. induction l as [|x l IH]; intros [|k]; cbn [map nth]; auto. Qed.
+
+Lemma completed_abs p : abs (completed p) = abs p.
+Proof.
+  unfold completed. destruct (chunks p) as [|c0 cs] eqn:Ec; [|reflexivity].
+  unfold abs. cbn [ctype chunks map concat]. rewrite Ec. cbn [map concat]. f_equal.
+  apply map_ext. intros k. rewrite app_nil_r. unfold chunk_cols. cbn [sfields svalid]. rewrite map_map.
+  apply (nth_map_const (@nil (list val)) (ctype p) k).
+Qed.
+
+(* (after the repair "a missing row holds nothing" the constructor ends with _drop_hidden_elements, which keeps
+   well-formedness: Proofs_Norm.drop_hidden_sound) *)
 Lemma init_sound p p' : arrow_ok_b p = true -> m_init p true = Ok p' -> wf_b p' = true.
 Proof.
-  intros Hok Hinit. unfold m_init in Hinit. destruct (chunks p) as [|c0 cs] eqn:Ec.
-  - match type of Hinit with (if m_validate ?q then _ else _) = _ => destruct (m_validate q) eqn:Hv end;
-      [|discriminate].
-    inversion Hinit; subst p'. clear Hinit.
-    unfold arrow_ok_b in Hok. apply andb_true_iff in Hok as [Hne _].
-    unfold wf_b. cbn [ctype chunks forallb]. rewrite Hne. cbn [andb]. rewrite andb_true_r.
-    unfold m_validate in Hv. cbn [chunks forallb] in Hv. rewrite andb_true_r in Hv.
-    unfold m_validate_chunk in Hv. rewrite Hv.
-    unfold wf_chunk_b, sc_schema, lists_valid_b. cbn [sfields svalid].
-    rewrite empty_fields_schema, schema_eqb_refl.
-    rewrite !forallb_map. cbn [farr lvalid]. 
-    assert (E1 : forallb (fun x : string * ety => wf_larr_b (sc_len {| svalid := []; sfields := map (fun nt : string * ety => {| fname := fst nt; fty := snd nt; farr := {| offs := [0]; lvalid := []; child := [] |} |}) (ctype p) |}) {| offs := [0]; lvalid := []; child := [] |}) (ctype p) = true)
-      by (apply forallb_forall; intros; reflexivity).
-    rewrite E1.
-    assert (E2 : forallb (fun _ : string * ety => forallb2 (fun sv lv : bool => implb sv lv) [] []) (ctype p) = true)
-      by (apply forallb_forall; intros; reflexivity).
-    rewrite E2. reflexivity.
-  - destruct (m_validate p) eqn:Hv; [|discriminate]. inversion Hinit; subst p'.
-    apply arrow_ok_validate_wf; assumption.
+  intros Hok Hinit. rewrite m_init_true_eq in Hinit.
+  destruct (m_validate (completed p)) eqn:Hv; [|discriminate]. inversion Hinit; subst p'.
+  apply drop_hidden_sound.
+  apply arrow_ok_validate_wf; [apply completed_arrow_ok, Hok|exact Hv].
 Qed.
+
+(* N3: the constructor establishes the layout part of the invariant by itself, for ANY accepted input, also one whose
+   missing rows hide elements, without changing the logical column *)
+Theorem init_normalises p q : arrow_ok_b p = true -> m_init p true = Ok q ->
+  wf_b q = true /\ norm_missing_all_b q = true /\ abs q = abs p /\ chunks q <> [].
+Proof.
+  intros Hok Hinit. rewrite m_init_true_eq in Hinit.
+  destruct (m_validate (completed p)) eqn:Hv; [|discriminate]. inversion Hinit; subst q.
+  assert (Hwf : wf_b (completed p) = true)
+    by (apply arrow_ok_validate_wf; [apply completed_arrow_ok, Hok|exact Hv]).
+  destruct (drop_hidden_sound (completed p) Hwf) as (H1 & H2 & H3 & H4).
+  repeat split; try assumption.
+  - rewrite H3. apply completed_abs.
+  - apply H4, completed_chunks.
+Qed.
+
+Corollary init_abs p q : arrow_ok_b p = true -> m_init p true = Ok q -> abs q = abs p /\ chunks q <> [].
+Proof. intros Hok Hinit. destruct (init_normalises p q Hok Hinit) as (_ & _ & H3 & H4). auto. Qed.
+
+(* with distinct field names: the whole invariant *)
+Theorem init_inv p q : arrow_ok_b p = true -> nodupb (map fst (ctype p)) = true -> m_init p true = Ok q ->
+  inv_b q = true.
+Proof.
+  intros Hok Hnd Hinit. rewrite m_init_true_eq in Hinit.
+  destruct (m_validate (completed p)) eqn:Hv; [|discriminate]. inversion Hinit; subst q.
+  apply drop_hidden_inv.
+  - apply arrow_ok_validate_wf; [apply completed_arrow_ok, Hok|exact Hv].
+  - apply completed_chunks.
+  - unfold completed. destruct (chunks p); exact Hnd.
+Qed.
+
+Example init_normalises_hidden_valid :
+  arrow_ok_b cx_hidden_valid = true /\ norm_missing_all_b cx_hidden_valid = false
+  /\ exists q, m_init cx_hidden_valid true = Ok q /\ inv_b q = true /\ abs q = abs cx_hidden_valid.
+Proof. split; [reflexivity|]. split; [reflexivity|]. eexists. repeat split; reflexivity. Qed.
+Example init_normalises_hidden_mixed :
+  arrow_ok_b cx_hidden_mixed = true /\ norm_missing_all_b cx_hidden_mixed = false
+  /\ exists q, m_init cx_hidden_mixed true = Ok q /\ inv_b q = true /\ abs q = abs cx_hidden_mixed.
+Proof. split; [reflexivity|]. split; [reflexivity|]. eexists. repeat split; reflexivity. Qed.
+
 (* ... and refuses every ragged one *)
 Lemma init_refuses_ragged p : arrow_ok_b p = true -> forallb rect_b (chunks p) = false -> m_init p true = Err.
 Proof.
@@ -225,6 +292,9 @@ Qed.
 Print Assumptions wf_rect.
 Print Assumptions wf_schema.
 Print Assumptions init_sound.
+Print Assumptions init_abs.
+Print Assumptions init_normalises.
+Print Assumptions init_inv.
 Print Assumptions init_refuses_ragged.
 Print Assumptions spec_set_field_validity.
 Print Assumptions spec_set_field_replace_others.
